@@ -1,6 +1,10 @@
 package main
 
 import (
+	"sort"
+	"encoding/json"
+	"path/filepath"
+	"os"
 	"fmt"
 	"go/constant"
 	"go/types"
@@ -299,7 +303,140 @@ func (env *SpecEnv) findLocal(name string) *ssa.Alloc {
 	if len(live) > 0 {
 		return pick(live)
 	}
-	return pick(all)
+	if a := pick(all); a != nil {
+		return a
+	}
+	// The name is unknown in the current tree. If the reference tree had a local of that
+	// name, the local that now sits at the same place (same type, same rank among the locals
+	// of that type) is taken instead: a renamed local keeps its contract clauses. This is only
+	// name resolution: the clauses still have to be proved about whatever local was chosen.
+	return env.ex.renamedLocal(env.fr, name)
+}
+
+type localSig struct {
+	Name string `json:"name"`
+	Type string `json:"type"`
+}
+
+// namedLocals lists the named locals (and parameters spilled to allocs) of fn in source order.
+func namedLocals(fn *ssa.Function) []*ssa.Alloc {
+	var out []*ssa.Alloc
+	for _, b := range fn.Blocks {
+		for _, ins := range b.Instrs {
+			if a, ok := ins.(*ssa.Alloc); ok && a.Comment != "" && a.Comment != "rangeindex" && !strings.Contains(a.Comment, ".") && a.Pos().IsValid() {
+				out = append(out, a)
+			}
+		}
+	}
+	for _, a := range fn.Locals {
+		dup := false
+		for _, b := range out {
+			if a == b {
+				dup = true
+			}
+		}
+		if !dup && a.Comment != "" && a.Comment != "rangeindex" && !strings.Contains(a.Comment, ".") && a.Pos().IsValid() {
+			out = append(out, a)
+		}
+	}
+	sort.SliceStable(out, func(i, j int) bool { return out[i].Pos() < out[j].Pos() })
+	return out
+}
+
+func localSigs(fn *ssa.Function) []localSig {
+	var out []localSig
+	for _, a := range namedLocals(fn) {
+		out = append(out, localSig{a.Comment, types.TypeString(a.Type().Underlying().(*types.Pointer).Elem(), nil)})
+	}
+	return out
+}
+
+var baselineLocals map[string][]localSig
+var baselineLocalsLoaded bool
+
+func (ex *Exec) renamedLocal(fr *Frame, name string) *ssa.Alloc {
+	if fr == nil || !fr.isTop {
+		return nil
+	}
+	if !baselineLocalsLoaded {
+		baselineLocalsLoaded = true
+		if b, err := os.ReadFile(filepath.Join(verifDir(), "baseline", "locals.json")); err == nil {
+			json.Unmarshal(b, &baselineLocals)
+		}
+	}
+	ref := baselineLocals[fr.fn.String()]
+	if ref == nil {
+		return nil
+	}
+	// locals of the same type, reference versus current, aligned on the names they share: the
+	// i-th reference-only name between two shared names is matched with the i-th current-only
+	// name between the same two shared names
+	typ := ""
+	for _, l := range ref {
+		if l.Name == name {
+			typ = l.Type
+			break
+		}
+	}
+	if typ == "" {
+		return nil
+	}
+	var refNames []string
+	for _, l := range ref {
+		if l.Type == typ {
+			refNames = append(refNames, l.Name)
+		}
+	}
+	var curAllocs []*ssa.Alloc
+	for _, a := range namedLocals(fr.fn) {
+		if types.TypeString(a.Type().Underlying().(*types.Pointer).Elem(), nil) == typ {
+			curAllocs = append(curAllocs, a)
+		}
+	}
+	inCur := map[string]bool{}
+	for _, a := range curAllocs {
+		inCur[a.Comment] = true
+	}
+	inRef := map[string]bool{}
+	for _, n := range refNames {
+		inRef[n] = true
+	}
+	// position of the name: previous shared name (anchor) and index among the reference-only names after it
+	anchor, idx := "", 0
+	for _, n := range refNames {
+		if n == name {
+			break
+		}
+		if inCur[n] {
+			anchor, idx = n, 0
+		} else {
+			idx++
+		}
+	}
+	var cand *ssa.Alloc
+	seen := anchor == ""
+	k := 0
+	for _, a := range curAllocs {
+		if !seen {
+			if a.Comment == anchor {
+				seen = true
+			}
+			continue
+		}
+		if inRef[a.Comment] {
+			break // next shared name: end of the gap
+		}
+		if k == idx {
+			cand = a
+			break
+		}
+		k++
+	}
+	if cand == nil {
+		return nil
+	}
+	ex.cx.note("local %s of %s is resolved to the renamed local %s (same type and rank as in the reference tree)", name, fr.fn.Name(), cand.Comment)
+	return cand
 }
 
 func (env *SpecEnv) unary(x *EUn) SVal {
